@@ -606,6 +606,151 @@ Proof.
     destruct (limit_size_prefix us max) as (j & Hj & _). rewrite Hj. unfold nlen in *. rewrite firstn_length. lia.
 Qed.
 
+(* when the size limit cuts a list, it cuts every extension of it at the same place *)
+Lemma limit_loop_cut_app : forall a b size max, (length (limit_loop size max a) < length a)%nat ->
+  limit_loop size max (a ++ b) = limit_loop size max a.
+Proof.
+  induction a as [|e r IH]; intros b size max H; simpl in *; [lia|].
+  destruct (max <? size + esz e); [reflexivity|]. simpl in H. f_equal. apply IH. lia.
+Qed.
+Lemma limit_size_cut_app : forall a b max, nlen (limit_size a max) < nlen a -> limit_size (a ++ b) max = limit_size a max.
+Proof.
+  intros [|e r] b max H; unfold nlen in H; simpl in *; [lia|]. f_equal. apply limit_loop_cut_app. lia.
+Qed.
+
+Theorem l_slice_strong : forall l m off lo hi max,
+  wf_mlog l m off -> mfirst l off <= lo -> lo < hi -> hi <= mlast l m off + 1 ->
+  exists X, l_slice l lo hi max = Ok (limit_size X max, l) /\ good (l_u l) m off lo X /\ nlen X = hi - lo.
+Proof.
+  intros l m off lo hi max Hwf Hlo Hlt Hhi.
+  pose proof Hwf as (Hs & Hm & Ho & Hu & Hsn).
+  pose proof (wf_ms_contig_off _ _ Hm Ho) as Hmc.
+  unfold l_slice, l_must_check_out_of_bounds.
+  replace (hi <? lo) with false by (symmetry; apply N.ltb_ge; lia).
+  rewrite (l_first_index_wf _ _ _ Hwf). cbn [bind].
+  replace (lo <? mfirst l off) with false by (symmetry; apply N.ltb_ge; lia).
+  rewrite (l_last_index_wf _ _ _ Hwf). cbn [bind].
+  replace (mlast l m off + 1 <? hi) with false by (symmetry; apply N.ltb_ge; lia).
+  cbn [bind].
+  replace (lo =? hi) with false by (symmetry; apply N.eqb_neq; lia).
+  set (uoff := u_off (l_u l)) in *.
+  (* the unstable part [max lo uoff, hi) when it is needed *)
+  assert (Hus : uoff < hi -> exists us, u_slice (l_u l) (N.max lo uoff) hi = Ok us /\
+                us = nfirstn (hi - N.max lo uoff) (nskipn (N.max lo uoff - uoff) (u_ents (l_u l))) /\
+                hi <= uoff + nlen (u_ents (l_u l))).
+  { intros Hh. assert (Hb : hi <= uoff + nlen (u_ents (l_u l))).
+    { unfold mlast in Hhi. unfold mfirst in Hlo. fold uoff in Hhi. destruct (u_ents (l_u l)) as [|y ys] eqn:Eu.
+      - exfalso. destruct (u_snap (l_u l)) as [[si st]|].
+        + fold uoff in Hsn. lia.
+        + destruct Hsn as (_ & _ & Hz). specialize (Hz eq_refl). fold uoff in Hz. pose proof (wf_ms_len _ Hm) as Hl1. clear -Hz Hh Hhi Hl1. lia.
+      - unfold nlen in *. cbn [length] in *. clear -Hhi. lia. }
+    unfold u_slice. fold uoff.
+    replace (hi <? N.max lo uoff) with false by (symmetry; apply N.ltb_ge; lia).
+    replace (N.max lo uoff <? uoff) with false by (symmetry; apply N.ltb_ge; lia).
+    replace (uoff + nlen (u_ents (l_u l)) <? hi) with false by (symmetry; apply N.ltb_ge; lia).
+    cbn [orb]. rewrite goslice_ok by lia. eexists. split; [reflexivity|]. split; [|exact Hb].
+    f_equal. lia. }
+  (* entries read from the unstable part are the log's entries *)
+  assert (Hgu : forall a n, uoff <= a -> forall k e, nth_error (nfirstn n (nskipn (a - uoff) (u_ents (l_u l)))) k = Some e ->
+                log_entry (l_u l) m off (a + N.of_nat k) = Some e).
+  { intros a n Ha k e Hk.
+    assert (Hkn : (k < N.to_nat n)%nat).
+    { destruct (Nat.lt_ge_cases k (N.to_nat n)); [assumption|]. exfalso.
+      assert (nth_error (nfirstn n (nskipn (a - uoff) (u_ents (l_u l)))) k = None).
+      { apply nth_error_None. unfold nfirstn. rewrite firstn_length. lia. } congruence. }
+    rewrite nth_error_sub in Hk by exact Hkn. unfold log_entry. fold uoff.
+    replace (uoff <=? a + N.of_nat k) with true by (symmetry; apply N.leb_le; lia).
+    unfold nnth. replace (N.to_nat (a + N.of_nat k - uoff)) with (N.to_nat (a - uoff) + k)%nat by lia. exact Hk. }
+  destruct (lo <? uoff) eqn:E1.
+  - (* the range starts in storage *)
+    apply N.ltb_lt in E1.
+    assert (Hnosnap : u_snap (l_u l) = None).
+    { destruct (u_snap (l_u l)) as [[si st]|] eqn:Es; [|reflexivity]. unfold mfirst in Hlo. rewrite Es in Hlo. lia. }
+    rewrite Hnosnap in Hsn. destruct Hsn as (Hs1 & Hs2 & Hs3). fold uoff in Hs1, Hs2, Hs3.
+    unfold mfirst in Hlo. rewrite Hnosnap in Hlo.
+    rewrite Hs. cbn [st_entries].
+    rewrite (ms_entries_spec m off lo (N.min hi uoff) max Hm Ho) by lia. cbn [bind].
+    set (sl := nfirstn (N.min hi uoff - lo) (nskipn (lo - off) (ms_ents m))).
+    assert (Hsl_len : nlen sl = N.min hi uoff - lo) by (apply nfirstn_nskipn_length; lia).
+    assert (Hsl_good : good (l_u l) m off lo sl).
+    { split; [|split].
+      - intros Hn. rewrite Hn in Hsl_len. unfold nlen in Hsl_len. simpl in Hsl_len. lia.
+      - pose proof (contig_sub _ _ (lo - off) (N.min hi uoff - lo) Hmc) as X. replace (off + (lo - off)) with lo in X by lia. exact X.
+      - intros k e Hk.
+        assert (Hkn : (k < N.to_nat (N.min hi uoff - lo))%nat).
+        { destruct (Nat.lt_ge_cases k (N.to_nat (N.min hi uoff - lo))); [assumption|]. exfalso.
+          assert (nth_error sl k = None). { apply nth_error_None. unfold nlen in Hsl_len. lia. } congruence. }
+        unfold sl in Hk. rewrite nth_error_sub in Hk by exact Hkn. unfold log_entry. fold uoff.
+        replace (uoff <=? lo + N.of_nat k) with false by (symmetry; apply N.leb_gt; lia).
+        replace (off <? lo + N.of_nat k) with true by (symmetry; apply N.ltb_lt; lia).
+        unfold nnth. replace (N.to_nat (lo + N.of_nat k - off)) with (N.to_nat (lo - off) + k)%nat by lia. exact Hk. }
+    rewrite set_st_same by exact Hs.
+    destruct (uoff <? hi) eqn:E3.
+    + apply N.ltb_lt in E3. destruct (Hus E3) as (us & Hus1 & Hus2 & Hb).
+      replace (N.max lo uoff) with uoff in Hus1, Hus2 by lia.
+      assert (Hlen_us : length us = N.to_nat (hi - uoff)).
+      { rewrite Hus2. pose proof (nfirstn_nskipn_length (u_ents (l_u l)) (uoff - uoff) (hi - uoff)) as X. pose proof Hb as Hb'. unfold nlen in X, Hb'. lia. }
+      assert (Hall : good (l_u l) m off lo (sl ++ us)).
+      { destruct Hsl_good as (G1 & G2 & G3). split; [|split].
+        - destruct sl; [congruence|discriminate].
+        - apply contig_app. split; [exact G2|]. rewrite Hsl_len. replace (lo + (N.min hi uoff - lo)) with uoff by lia.
+          rewrite Hus2. pose proof (contig_sub _ _ (uoff - uoff) (hi - uoff) Hu) as X. fold uoff in X.
+          replace (uoff + (uoff - uoff)) with uoff in X by lia. exact X.
+        - intros k e Hk. destruct (Nat.lt_ge_cases k (length sl)) as [L|G].
+          + rewrite nth_error_app1 in Hk by exact L. apply G3. exact Hk.
+          + rewrite nth_error_app2 in Hk by exact G. rewrite Hus2 in Hk.
+            pose proof (Hgu uoff (hi - uoff) ltac:(lia) _ _ Hk) as X.
+            replace (lo + N.of_nat k) with (uoff + N.of_nat (k - length sl)) by (unfold nlen in Hsl_len; lia). exact X. }
+      assert (Hlen_all : nlen (sl ++ us) = hi - lo).
+      { unfold nlen in *. rewrite app_length. lia. }
+      exists (sl ++ us). split; [|split; [exact Hall|exact Hlen_all]].
+      destruct (nlen (limit_size sl max) <? N.min hi uoff - lo) eqn:E2.
+      * (* the size limit cut the stored part: the unstable part would have been cut as well *)
+        apply N.ltb_lt in E2. rewrite (limit_size_cut_app sl us max) by lia. reflexivity.
+      * apply N.ltb_ge in E2.
+        assert (Hfull : limit_size sl max = sl).
+        { apply limit_size_full. destruct (limit_size_prefix sl max) as (j & Hj & _). rewrite Hj in *.
+          unfold nlen in *. rewrite firstn_length in *. lia. }
+        rewrite Hfull. replace (N.max lo uoff) with uoff by lia. rewrite Hus1. cbn [bind]. reflexivity.
+    + apply N.ltb_ge in E3. replace (N.min hi uoff) with hi in * by lia.
+      exists sl. split; [|split; [exact Hsl_good|exact Hsl_len]].
+      destruct (nlen (limit_size sl max) <? hi - lo) eqn:E2.
+      * reflexivity.
+      * apply N.ltb_ge in E2.
+        assert (Hfull : limit_size sl max = sl).
+        { apply limit_size_full. destruct (limit_size_prefix sl max) as (j & Hj & _). rewrite Hj in *.
+          unfold nlen in *. rewrite firstn_length in *. lia. }
+        rewrite Hfull. cbn [bind]. rewrite Hfull. reflexivity.
+  - (* the whole range is unstable *)
+    apply N.ltb_ge in E1. cbn [bind]. replace (uoff <? hi) with true by (symmetry; apply N.ltb_lt; lia).
+    assert (E3 : uoff < hi) by lia. destruct (Hus E3) as (us & Hus1 & Hus2 & Hb). rewrite Hus1. cbn [bind app].
+    replace (N.max lo uoff) with lo in Hus2 by lia.
+    assert (Hlen_us : nlen us = hi - lo).
+    { rewrite Hus2. apply nfirstn_nskipn_length. lia. }
+    assert (Hall : good (l_u l) m off lo us).
+    { split; [|split].
+      - intros Hn. rewrite Hn in Hlen_us. unfold nlen in Hlen_us. simpl in Hlen_us. lia.
+      - rewrite Hus2. pose proof (contig_sub _ _ (lo - uoff) (hi - lo) Hu) as X. fold uoff in X.
+        replace (uoff + (lo - uoff)) with lo in X by lia. exact X.
+      - intros k e Hk. rewrite Hus2 in Hk. apply (Hgu lo (hi - lo) E1 _ _ Hk). }
+    exists us. split; [reflexivity|]. split; [exact Hall|exact Hlen_us].
+Qed.
+
+
+(* without a size limit (and a total size that fits 64 bits) the slice is the whole range *)
+Lemma limit_size_nolimit : forall X, fold_right (fun e a => esz e + a) 0 X <= no_limit -> limit_size X no_limit = X.
+Proof.
+  intros [|e r] H; [reflexivity|]. simpl in *. f_equal. apply limit_loop_nolimit; [auto|]. lia.
+Qed.
+Corollary l_slice_nolimit : forall l m off lo hi,
+  wf_mlog l m off -> mfirst l off <= lo -> lo < hi -> hi <= mlast l m off + 1 ->
+  (forall X, good (l_u l) m off lo X -> fold_right (fun e a => esz e + a) 0 X <= no_limit) ->
+  exists X, l_slice l lo hi no_limit = Ok (X, l) /\ good (l_u l) m off lo X /\ nlen X = hi - lo.
+Proof.
+  intros l m off lo hi Hwf H1 H2 H3 Hsz. destruct (l_slice_strong l m off lo hi no_limit Hwf H1 H2 H3) as (X & Hs & Hg & Hl).
+  exists X. rewrite (limit_size_nolimit X (Hsz X Hg)) in Hs. auto.
+Qed.
+
 Lemma contig_last_index : forall es from, contig from es -> es <> [] ->
   exists e, last_opt es = Some e /\ eindex e = from + nlen es - 1.
 Proof.
